@@ -116,6 +116,9 @@ def _ignore_args(cfg, tgt):
     return []
 
 
+LAST_SEARCH = []
+
+
 def search(cfg, failure, repo='/repo'):
     """cfg: {"kind": "vx_witness", "targets": {<function label>: <search target>}, "universe": 6}"""
     if cfg.get('kind') != 'vx_witness':
@@ -126,19 +129,26 @@ def search(cfg, failure, repo='/repo'):
     exe = _build(repo)
     if not exe:
         return None
-    try:
-        p = subprocess.run([exe, 'search', tgt, '--universe', str(cfg.get('universe', 6)), '--max-seconds', str(cfg.get('max_seconds', 120))] + _ignore_args(cfg, tgt),
-                           stdout=subprocess.PIPE, stderr=subprocess.PIPE, text=True, timeout=cfg.get('max_seconds', 120) + 60)
-    except subprocess.TimeoutExpired:
-        return None
-    line = p.stdout.strip().split('\n')[-1] if p.stdout.strip() else ''
-    try:
-        js = json.loads(line)
-    except ValueError:
-        return None
-    if js.get('found') is False or p.returncode == 0:
-        return None
-    return {'kind': 'vx_witness', 'case': js}
+    # "a+b": several search targets, run one after the other, the time budget shared
+    parts = [t for t in tgt.split('+') if t]
+    del LAST_SEARCH[:]
+    budget = max(30, int(cfg.get('max_seconds', 120) / max(1, len(parts))))
+    for t in parts:
+        try:
+            p = subprocess.run([exe, 'search', t, '--universe', str(cfg.get('universe', 6)), '--max-seconds', str(budget)] + _ignore_args(cfg, t),
+                               stdout=subprocess.PIPE, stderr=subprocess.PIPE, text=True, timeout=budget + 60)
+        except subprocess.TimeoutExpired:
+            continue
+        line = p.stdout.strip().split('\n')[-1] if p.stdout.strip() else ''
+        try:
+            js = json.loads(line)
+        except ValueError:
+            continue
+        LAST_SEARCH.append({'target': t, 'found': not (js.get('found') is False or p.returncode == 0), 'cases': js.get('cases'), 'ignored_disagreements': js.get('ignored_disagreements')})
+        if js.get('found') is False or p.returncode == 0:
+            continue
+        return {'kind': 'vx_witness', 'case': js}
+    return None
 
 
 def _replay_witness(w, repo):
